@@ -284,6 +284,45 @@ def check_store(model, rep, sx: SX, tables):
     rep.require('C19.store', 5)
 
 
+def check_boundaries(model, rep, sx: SX, R='C19.boundary', only=None):
+    """the rejection that enforces a documented threshold is exactly its complement: the ValueError path whose last
+    test is about the same difference as the requirement must imply that the requirement is false (a `<=` where `<`
+    is documented rejects the admissible boundary value itself: 10 teeth, the tabulated maximum helix angle)"""
+    from sa.sx import sign_set
+    for cls, reqs in PARAMS.items():
+        if cls not in model.classes:
+            continue
+        m = model.member(cls, '__init__')
+        try:
+            outs = sx.run(m.node, m.module, cls)
+        except CannotDecide as e:
+            rep.cannot(R, f'{cls}.__init__', str(e), m.loc)
+            continue
+        raises = [o for o in outs if o.kind == 'raise' and o.value == 'ValueError' and o.state.guards]
+        ann = {a.arg: a.annotation for a in m.node.args.args}
+        env = {p: sx.typed_atom(p, parse_annotation(ann.get(p), model), p) for p in ann if p != 'self'}
+        spec0 = SpecCtx(sx, cls, env=env)
+        for req in reqs:
+            name, params, expr = req[:3]
+            if only is not None and not any(k in name for k in only):
+                continue
+            spec = spec0 if len(req) < 4 else SpecCtx(sx, cls, module=model.cls(req[3]).module, env=env)
+            try:
+                gs = [g for g in spec.guards(expr) if g.kind == 'cmp']
+            except CannotDecide:
+                continue
+            for r in gs:
+                cons = f'{cls}.__init__[{name}]:boundary'
+                trig = [o for o in raises if o.state.guards[-1].kind == 'cmp' and sign_set(o.state.guards[-1], r.rat) is not None]
+                if not trig:
+                    continue
+                bad = [o for o in trig if not implies([o.state.guards[-1]], r.negate())]
+                rep.decide(not bad, R, cons,
+                           f'the constructor raises ValueError on `{bad[0].state.guards[-1].show(sx.ctx)}` although `{expr}` holds there: the '
+                           f'admissible boundary value is rejected' if bad else '', loc=f'{m.module}:{bad[0].loc if bad else m.node.lineno}')
+                rep.inspect()
+
+
 def check_params(model, rep, sx: SX):
     ctx = sx.ctx
     for cls, reqs in PARAMS.items():
@@ -365,4 +404,5 @@ def check(model, rep):
     sx3.inline_ctor_guards = True     # a constructor call on the path contributes its sign check
     check_store(model, rep, sx3, tables)
     check_params(model, rep, sx)
+    check_boundaries(model, rep, sx)
     rep.assume('unit factors are positive (C05.table)')
